@@ -119,7 +119,8 @@ def augmentPass (reg : Registry) : (fuel : Nat) → (mods : Array Nat) → (i : 
       else augmentPass reg fuel mods (i + 1) (processed + p) s
     else (mods, processed, s)
 
-/-- Go: `for len(mods) > 0 { … if processed == 0 { break } }`. -/
+/-- Go: `for len(mods) > 0 { … if processed == 0 { break } }` — the closure `augmentLoop` of
+`Modules.Process` (its result, the number of augments applied, is in `augmentLoopN` below). -/
 def augmentLoop (reg : Registry) : (fuel : Nat) → Array Nat → PState → Array Nat × PState
   | 0, mods, s => (mods, s)
   | fuel + 1, mods, s =>
